@@ -1,3 +1,4 @@
+import VivModel.Gen.Tables
 import VivModel.Model.Util
 import VivModel.Model.IndexMap
 import VivModel.Lemmas.IndexMap
@@ -308,5 +309,11 @@ example : update (hashPos 5) 10 [⟨0, [.int 0], 1⟩] [(1, [.int 0])] (.int 3) 
 example : update (hashPos 5) 10 [] [(0, [.int 4]), (1, [.int 4])] (.int 3) = .error .randomness := by decide
 -- block size 7 divides 111111: keys 1 and 2 collide and the salt never separates them
 example : update (hashPos 7) 50 [] [(0, [.int 1]), (1, [.int 2])] (.int 0) = .error .fuel := by decide
+
+/-- the hash constants of the model are those of the working tree's randomness/index_map.py (regenerated on every
+run): the ten-digit modulus, the `primes` list of `_hash` (whose last entry really is 27) and the `_spread` multiplier -/
+theorem gen_index_map_constants :
+    Viv.IndexMap.tenDigitModulus = Viv.Gen.indexMapTenDigitModulus ∧ Viv.IndexMap.primes = Viv.Gen.indexMapPrimes ∧
+    Viv.IndexMap.spreadMul = Viv.Gen.indexMapSpreadMul := by decide
 
 end Viv.Props.C03
